@@ -7,6 +7,7 @@ package main
 // construct with a wrong detail); an unrecognised shape is UNDECIDED.
 
 import (
+	"go/token"
 	"fmt"
 	"regexp"
 	"sort"
@@ -269,7 +270,22 @@ func checkLocationParser(c *Ctx, pl *ssa.Function) {
 				del, found = d, true
 			}
 		}
-		if !found {
+		// markers trimmed off the ends of the WHOLE span before it is split: the INSDC form n..>m keeps its '>'
+		trimmedWhole := ""
+		for _, a := range stripArgs {
+			a.walk(func(x *Term) {
+				if x.isCall("strings.Split") && len(x.Args) == 2 {
+					if in := x.Args[0]; in.Op == "call" && strings.HasPrefix(in.Name, "strings.Trim") && len(in.Args) == 2 {
+						if cs, ok := in.Args[1].constStr(); ok && strings.ContainsAny(cs, "<>") {
+							trimmedWhole = in.Name + "(span, " + strconvQuote(cs) + ")"
+						}
+					}
+				}
+			})
+		}
+		if trimmedWhole != "" {
+			c.bad("TABLE", "markers stripped before Atoi are exactly < and >", pl.Pos(), "the partial markers are removed with "+trimmedWhole+" BEFORE the span is split at \"..\": only a leading '<' and a trailing '>' go away, so the INSDC 3'-partial form n..>m keeps '>' in front of m, Atoi fails silently and End becomes 0")
+		} else if !found {
 			c.undecided("TABLE", "markers stripped before Atoi are exactly < and >", pl.Pos(), "the operation that removes the partial markers was not recognised")
 		} else {
 			c.check(del == "<>", "TABLE", "markers stripped before Atoi are exactly < and >", pl.Pos(), "exactly '<' and '>' are removed", fmt.Sprintf("the characters removed before Atoi are %q; want exactly \"<>\"", del))
@@ -641,12 +657,18 @@ func checkLocationEvaluator(c *Ctx, gsq, ev *ssa.Function) {
 	ra := resultAlts(gtb, gsq, 0)
 	if len(ra) == 1 && ra[0].T.Op == "call" && len(ra[0].T.Args) >= 2 {
 		t := ra[0].T
-		okG := t.Args[0].isParam(0) && t.Args[1].String() == "field[SequenceLocation](param[0])"
-		st2 := holds
-		if !okG {
-			st2 = unknown
-			if t.Args[1].Op == "field" && t.Args[1].Name != "SequenceLocation" {
-				st2 = broken
+		st2 := unknown
+		for _, a := range t.Args {
+			if a.String() == "field[SequenceLocation](param[0])" {
+				st2 = holds
+			}
+		}
+		if st2 != holds {
+			// a location of the feature other than its own SequenceLocation (e.g. its first sub-location)
+			for _, a := range t.Args {
+				if a.V != nil && tname(a.V.Type()) == "poly.Location" && a.contains(func(x *Term) bool { return x.isParam(0) }) {
+					st2 = broken
+				}
 			}
 		}
 		c.judge(st2, "TERM-EVAL", "GetSequence starts at feature.SequenceLocation", gsq.Pos(), "GetSequence() evaluates feature.SequenceLocation of the same feature", "GetSequence evaluates "+short(t.String()))
@@ -698,9 +720,10 @@ func checkLocationPrinter(c *Ctx, bl, pl *ssa.Function) {
 	// forms
 	tb := newDeepTB(bl)
 	type alt struct {
-		t    *Term
-		cond *Cond
-		v    ssa.Value
+		t      *Term
+		cond   *Cond
+		v      ssa.Value
+		direct bool // the value of a return statement itself (its condition is the whole path)
 	}
 	var alts []alt
 	var expand func(v ssa.Value, pc *Cond, depth int)
@@ -711,7 +734,7 @@ func checkLocationPrinter(c *Ctx, bl, pl *ssa.Function) {
 			}
 			return
 		}
-		alts = append(alts, alt{tb.T(v), pc, v})
+		alts = append(alts, alt{tb.T(v), pc, v, depth == 0})
 	}
 	for _, r := range returnsOf(bl) {
 		expand(r.Results[0], pathCond(tb, bl.Blocks[0], r.Block()), 0)
@@ -778,6 +801,36 @@ func checkLocationPrinter(c *Ctx, bl, pl *ssa.Function) {
 			}
 		default:
 			leafAlts = append(leafAlts, a)
+		}
+	}
+	// no form may be reached with the Complement flag (or a partial flag) still unexamined: an early
+	// return of a bare coordinate before the flags are looked at prints complement(7..7) as 7
+	if compSt == holds {
+		mentions := func(a alt, field string) bool {
+			for _, at := range a.cond.atoms() {
+				if at.Atom.contains(func(x *Term) bool { return x.isField(field) }) {
+					return true
+				}
+			}
+			return a.t.contains(func(x *Term) bool { return x.isField(field) })
+		}
+		for _, a := range leafAlts {
+			if !a.direct || a.t.contains(func(x *Term) bool { return x.Op == "phi" || x.Op == "rec" }) || !a.t.contains(func(x *Term) bool { return x.isCall("strconv.Itoa") }) {
+				continue
+			}
+			var skipped []string
+			for _, fl := range []string{"Complement", "FivePrimePartial", "ThreePrimePartial"} {
+				if !mentions(a, fl) {
+					skipped = append(skipped, fl)
+				}
+			}
+			if len(skipped) > 0 {
+				pos := bl.Pos()
+				if ins, ok := a.v.(ssa.Instruction); ok && ins.Pos() != token.NoPos {
+					pos = ins.Pos()
+				}
+				c.bad("TERM-PRINT", "every form is chosen after the flags were examined", pos, "the form "+short(piecesString(func() []*Term { ps, _ := tb.pieces(a.t); return ps }()))+" is returned under "+short(a.cond.String())+" without "+strings.Join(skipped, ", ")+" having been looked at: a location that has those flags set is written without complement( ) / without its < > markers, and they are lost on re-reading")
+			}
 		}
 	}
 	c.judge(compSt, "TERM-PRINT", "complement => complement(+rec+) with only Complement cleared", bl.Pos(), "the operand is printed from the same location (all other flags and coordinates kept)", compWhy)
